@@ -7,7 +7,7 @@ decoding, key validation) over the abstract curve library; proofs: `Iota/Proofs/
 Theorems: completeness for every seed and alpha, the codec round trips / canonicity, key validation,
 agreement of the three hash routes, and the algebraic half of uniqueness.
 PARTIAL, stated in the theorems: (1) the curve library and SHA-512 are the hypotheses `Lawful`, `Cofactor`,
-`OrderExact`, `EncodeCanonical`, `EncodeDecode`, `Nat.Prime L`; (2) conformance with an independent RFC 9381
+`OrderExact`, `EncodeCanonical`, `EncodeDecode` (that L is prime is proved: `Iota/Proofs/Primes.lean`); (2) conformance with an independent RFC 9381
 implementation is established by the correspondence run (the Lean model instantiated with a from-scratch
 curve IS that independent implementation), not by a theorem; (3) full uniqueness ("any accepted proof yields
 the same hash") is a random-oracle statement: what is proved is that the output depends on Gamma only
@@ -16,6 +16,7 @@ must have such a Gamma is the Chaum–Pedersen soundness argument, which needs t
 unpredictable and has no counterpart over an arbitrary function `sha512`.
 -/
 import Iota.Proofs.Ed
+import Iota.Proofs.Primes
 
 namespace Iota.Props.C18
 open Iota.Proofs.Ed
@@ -29,13 +30,13 @@ variable {G : Type} [AddCommGroup G] {lib : EdLib G}
 its 256-round panic): `Prove` yields a proof, `Verify` accepts its encoding for the matching public key
 with the proof's hash, and `ProofToHash` gives the same hash. -/
 theorem complete (h : Lawful lib) (hcof : Cofactor lib) (hcan : EncodeCanonical lib)
-    (hord : OrderExact lib) (hprime : Nat.Prime L) (seed alpha sk : Bytes)
+    (hord : OrderExact lib) (seed alpha sk : Bytes)
     (hsk : newKeyFromSeed lib seed = some sk) (H : G)
     (hH : Vrf.encodeToCurve lib (sk.drop 32) alpha = some H) :
     ∃ pr, Vrf.prove lib sk alpha = some pr ∧
       Vrf.verify lib (sk.drop 32) alpha (pr.bytes lib) = some (true, pr.hash lib) ∧
       Vrf.proofToHash lib (pr.bytes lib) = some (pr.hash lib) :=
-  E3_complete h hcof hcan hord hprime seed alpha sk hsk H hH
+  E3_complete h hcof hcan hord Iota.Proofs.Primes.prime_L seed alpha sk hsk H hH
 
 /-- the three hash routes agree for ANY accepted proof. -/
 theorem hash_routes_agree (h : Lawful lib) (pk alpha pi β : Bytes) (hpk : pk.length = 32)
@@ -62,8 +63,11 @@ theorem bad_keys_rejected (h : Lawful lib) (pk alpha pi : Bytes) (hpk : pk.lengt
       Vrf.verify lib pk alpha pi = some (false, [])) := E3_key_validation h pk alpha pi hpk
 
 /-- honest keys pass the validation. -/
-theorem honest_key_valid (h : Lawful lib) (hord : OrderExact lib) (hprime : Nat.Prime L) (seed : Bytes) :
-    Vrf.validateKey lib (publicPoint lib seed) = true := E3_honest_key h hord hprime seed
+theorem honest_key_valid (h : Lawful lib) (hord : OrderExact lib) (seed : Bytes) :
+    Vrf.validateKey lib (publicPoint lib seed) = true := E3_honest_key h hord Iota.Proofs.Primes.prime_L seed
+
+/-- the group order L = 2^252 + 27742317777372353535851937790883648493 is prime (Pratt certificate, kernel-checked). -/
+theorem order_prime : Nat.Prime L := Iota.Proofs.Primes.prime_L
 
 /-- the canonical-y test is exactly `y < p`. -/
 theorem canonicalY_iff (x : Bytes) (hx : x.length = 32) :
